@@ -810,11 +810,11 @@ THEOREMS = {
     'C12_case_full_on_domain': 'hypothesis caseDomain s (no letter whose case mapping changes the length, no capital sigma): the model with the interpreter\'s full str.lower (expansion of U+0130, final-sigma rule) and str.upper (102 expansions) equals the character-by-character model, for change_case with every mode and change.case$ with every mode string; so the _unicode theorems are about what the check compares with the code',
     'C12_case_len_full_partial': 'hypotheses caseDomain s and every special character closed: the unrestricted model preserves the length and every letter up to case',
     'C12_case_len_full_neg': 'witnesses ß (u) -> SS, U+0130 (l) -> i + U+0307, {\\x ﬁ} (u) -> {\\x FI}: without caseDomain length preservation fails with all special characters closed (finding C12-case-length-changing-letter as a fact of the driven model)',
-    'C12_case_len_full_ge': 'EVERY string, every mode, no hypothesis: case change (full case mapping, unclosed special characters included) never makes the string shorter',
+    'C12_case_len_full_ge': 'EVERY string within the nesting limit (change_case accepts it), every mode, no other hypothesis: case change (full case mapping, unclosed special characters included) never makes the string shorter',
     'C12_case_plain_str_methods': 'EVERY string without braces (length-changing letters and the capital sigma included): change_case(s, u) IS s.upper(); change_case(s, l) is the character-by-character lower-casing, which is s.lower() when s has no capital sigma (with one, the sigma is never final at brace level 0: witness in _nonvacuous)',
     'C12_word_ops_idem': 'str.lower and str.upper as modelled from the regenerated tables of the interpreter (full mapping, final sigma) are idempotent on EVERY string',
     'C12_case_upper_idem_plain': 'EVERY string without braces, no caseDomain hypothesis: upper-casing is idempotent (ß -> SS -> SS)',
-    'C12_case_braces_full': 'EVERY string, every mode, NO hypothesis (full case mapping, capital sigma, unclosed special characters): the result is the input token by token with levels kept; a token inside braces that is not a special character is unchanged; in a special character the words stay in place, command words are unchanged, every other word is itself, its str.lower or its str.upper',
+    'C12_case_braces_full': 'EVERY string change_case accepts (brace nesting within max_level; no caseDomain, no closedness hypothesis), every mode (full case mapping, capital sigma, unclosed special characters): the result is the input token by token with levels kept; a token inside braces that is not a special character is unchanged; in a special character the words stay in place, command words are unchanged, every other word is itself, its str.lower or its str.upper',
     'C12_prefix_closes_opened': 'hypothesis every special character of s closed; every count: the text prefix scanned with BibTeX\'s depth rule (a "}" at depth 0 does not lower the depth) ends at depth 0 -- every group it opened is closed, also behind unmatched closing braces -- and it is a prefix q of s followed by exactly depthSat(q) closers',
     'C12_width_literal': '[anchored mechanism] "takes the literal literally": a string without special character (no { at brace level 0 directly followed by a backslash) within 100 nesting levels has the sum of the widths of its characters, whatever they are - {x\\y} counts its five characters',
 }
